@@ -476,7 +476,11 @@ func (s *Store[H]) flushLoop(ctx context.Context) {
 				break
 			}
 
-			from, to := toFlush[0].Height(), toFlush[len(toFlush)-1].Height()
+			// toFlush is empty, if only the head and tail pointers are being written
+			var from, to uint64
+			if len(toFlush) > 0 {
+				from, to = toFlush[0].Height(), toFlush[len(toFlush)-1].Height()
+			}
 			log.Errorw("writing header batch", "try", i+1, "from", from, "to", to, "err", err)
 			s.metrics.flush(ctx, time.Since(startTime), s.pending.Len(), true)
 
@@ -521,9 +525,14 @@ func (s *Store[H]) flushLoop(ctx context.Context) {
 // flush writes given headers to datastore
 func (s *Store[H]) flush(ctx context.Context, headers ...H) error {
 	ln := len(headers)
-	if ln == 0 {
+	if ln == 0 && s.contiguousHead.Load() == nil && s.tailHeader.Load() == nil {
 		return nil
 	}
+	// NOTE: head and tail pointers are written even if there are no headers to flush.
+	// The pointers on disk are only updated together with a flushed batch, so they can lag behind
+	// the in-memory ones; if the pending headers they were waiting for got deleted in the meantime,
+	// no batch would ever bring them up to date and the head pointer could be left referring to
+	// a deleted header.
 
 	batch, err := s.ds.Batch(ctx)
 	if err != nil {
